@@ -101,6 +101,36 @@ PROPS = {
 
 # Texts for MANIFEST.json (bin/mkmanifest.py); a property is registered once it appears here.
 MANIFEST_TEXT = {
+    "C04": {
+        "technique": "runtime monitoring: reference-model monitor comparing the harness P4Runtime server's tables and meter cells with the image of the control plane's rules after every accepted request; in-process crash-point simulation",
+        "text": "The real agent programs a harness-owned P4Runtime server that serves the shipped P4Info; after every accepted request the seven UP4 tables are compared with the reference image (sessions, terminations with action by FAR/QER/gate, QFI->TC, applications and tunnel peers present iff used, interfaces, meter-cell conservation), ids being resolved through the written tables. Crash points as for C03. Held on the explored histories inside the stated envelope.",
+        "note": "Envelope in evidence.assumptions (UP4 creates rules at establishment only); P4Runtime write semantics are those of the harness server; killed incarnations simulated in-process.",
+    },
+    "C07": {
+        "technique": "runtime monitoring: adversarial random source installed on the live association, set-model and porcupine linearizability checking of the TEID allocator, identifier comparison response <-> datapath entries, race detector",
+        "text": "Uniqueness is a property of whole histories: TEID histories with the cursor at the 2^32 wrap, holes and 3-8 concurrent goroutines are checked against a set model (porcupine for the concurrent ones); F-SEID collisions are forced with scripted random sources on the real agent; CHOOSE TEIDs from concurrent associations and the F-SEID are compared with the fields programmed at the harness BESS server.",
+        "note": "Not reached: exhaustion of the 2^32 TEID space. The scripted source is installed under the association's own handler lock.",
+    },
+    "C12": {
+        "technique": "runtime monitoring with fault enumeration: scripted lossy PFCP peer (answer the k-th transmission / none; late, duplicate, wrong-sequence, wrong-type responses), transmission counting and one-sided timing bounds, datapath server stop/start",
+        "text": "Every loss position k=1..N+1 (and none) for N in {1,2,3} on both agent-originated request paths, plus odd responses, peer heartbeats before/after association, 4 feature configurations x datapath up/down, and up/down/up transitions of the BESS server; counting and sequence equality are exact, timing rules one-sided with 50% slack.",
+        "note": "resp_timeout >= 200 ms; up/down judged only in stable states with the listener's transport count as ground truth.",
+    },
+    "C13": {
+        "technique": "runtime monitoring: interval arithmetic on stamps around the rate limiter; end-to-end injection of datapath reports (unixpacket socket / P4Runtime digests) with a sentinel for completeness, Session Report Requests decoded at the peer socket",
+        "text": "The notifier is driven with gaps around its interval and judged by t_return(j) - t_call(i) < interval; on the full path, bursts of reports for sessions with/without NOTIFY and unknown sessions are injected at the harness-owned datapath endpoints and the resulting requests are checked (count, SEID, fresh sequence, DLDR, downlink PDR).",
+        "note": "One association (multi-association routing is documented as not implemented); the 20 s interval of the full path is only checked as 'at most one within seconds'.",
+    },
+    "C14": {
+        "technique": "runtime monitoring: packets captured at the harness end-marker socket / PacketOut, decoded with gopacket, ordered against datapath commands by a shared logical clock, sentinel update for completeness; injected write failures on UP4",
+        "text": "Histories of FAR updates with/without the send-end-marker flag on sessions with arbitrary earlier tunnels; each emitted packet must be a GTP-U End Marker to the previous tunnel (old peer, old TEID, port 2152, N3 source), exactly one per flagged existing FAR, after the new FAR was programmed, none for unflagged, unknown, failed updates and creations.",
+        "note": "The flag is only generated on FARs that forwarded into a tunnel before the update.",
+    },
+    "C16": {
+        "technique": "runtime monitoring: every P4Runtime write validated online against the shipped P4Info by the harness server; the real generator binary executed repeatedly and its output byte-compared",
+        "text": "The validator checks exactly the clauses of the property on every update of boundary-value workloads (and, as notes, in all other UP4 workloads); the compiled-in constants are cross-checked against the P4Info and `p4info_code_gen` is run 5/50 times on the shipped P4Info: gofmt'd output == committed constants, all runs identical.",
+        "note": "Determinism of the generator is only sampled (map iteration order differs per run); nothing stricter than the property is taken from the P4Runtime specification.",
+    },
     "C01": {
         "technique": "runtime monitoring: structured fuzzing of the live agent over UDP with liveness / heartbeat-barrier / reply-count monitors, race detector on",
         "text": "Executions of the real agent (in-process, -race) under IE-level mutation of every dispatched message type in five protocol states on four agent configurations; the oracle is process liveness (a dead child is attributed to the journalled datagram), an answered heartbeat barrier after every datagram (wedge = handler parked in repository code in the goroutine dump), at most one reply per datagram, and a valid establishment+deletion on the same and on another association afterwards. Held = no violating execution among the ones produced; nothing is claimed about datagrams not generated.",
